@@ -321,14 +321,21 @@ func (client *Client) call(ctx context.Context, servicePath, serviceMethod strin
 		}()
 	}
 
-	Done := client.Go(ctx, servicePath, serviceMethod, args, reply, make(chan *Call, 10)).Done
+	goCall := client.Go(ctx, servicePath, serviceMethod, args, reply, make(chan *Call, 10))
+	Done := goCall.Done
 
 	var err error
 	select {
 	case <-ctx.Done(): // cancel by context
 		client.mutex.Lock()
+		// *seq is 0 until send() has registered this call: only remove the entry if it is ours,
+		// otherwise we would fail whichever call happens to own sequence number 0
 		call := client.pending[*seq]
-		delete(client.pending, *seq)
+		if call == goCall {
+			delete(client.pending, *seq)
+		} else {
+			call = nil
+		}
 		client.mutex.Unlock()
 		if call != nil {
 			call.Error = ctx.Err()
@@ -538,11 +545,12 @@ func (client *Client) send(ctx context.Context, call *Call) {
 	seq := client.seq
 	client.seq++
 	client.pending[seq] = call
-	client.mutex.Unlock()
-
+	// tell the blocking caller its sequence number while the table is locked:
+	// it reads the cell under the same lock when its context is done
 	if cseq, ok := ctx.Value(seqKey{}).(*uint64); ok {
 		*cseq = seq
 	}
+	client.mutex.Unlock()
 
 	// req := protocol.NewMessage()
 	req := protocol.NewMessage()
